@@ -185,6 +185,21 @@ FW == {Prog("FW", <<S(Asg("=", Var("s"), Bin("<<", Var("a"), Num(1))))>>), Prog(
        Prog("FW", <<S(Asg("=", Var("ss"), Un("!", Var("a"))))>>), Prog("FW", <<S(Asg("=", Var("s"), Un("~", Var("s"))))>>),
        Prog("FW", <<S(Asg("=", Var("s"), Bin("<", Var("a"), Var("b"))))>>), Prog("FW", <<S(Asg("=", Var("s"), Call("f", <<Var("b")>>)))>>),
        Prog("FW", <<S(Asg("=", Var("s"), Cond(Bin("<", Var("a"), Num(200)), Num(5), Var("X"))))>>)}
+\* FX: explicit hardware-access statements mixed with ordinary code (C18).  PORT1..PORT3 are io cells declared by the driver.
+Load(e) == [k |-> "load", e |-> e]
+Store(e) == [k |-> "store", e |-> e]
+Strobe(n) == [k |-> "strobe", name |-> n]
+Sleep(n) == [k |-> "csleep", n |-> n]
+Asm(t, eff, n, nm) == [k |-> "asm", text |-> t, eff |-> eff, n |-> n, name |-> nm, size |-> 2]
+XPool == {Load(Var("a")), Load(Var("PORT1")), Load(Num(5)), Load(Idx("arr", Var("X"))), Store(Var("b")), Store(Var("PORT2")), Store(Idx("arr", Var("Y"))),
+          Strobe("PORT3"), Strobe("PORT1"), Sleep(2), Sleep(5), Asm("NOP", "none", 0, "a"), Asm("LDA #7", "lda", 7, "a"), Asm("STA PORT2", "sta", 0, "PORT2"),
+          Asm("INX", "inx", 0, "a"), S(Asg("=", Var("a"), Var("b"))), S(Asg("=", Var("X"), Var("a"))), S(Inc(FALSE, 1, Var("a"))), S(Asg("=", Var("b"), Num(5))),
+          If(Var("a"), <<Set("c", 1)>>, <<>>)}
+FX == {Prog("FX", <<p, q>>) : p \in XPool, q \in XPool} \cup {Prog("FX", <<p, q, r>>) : p \in XPool, q \in XPool, r \in XPool}
+      \cup {Prog("FX", <<For(Asg("=", Var("Y"), Num(0)), Bin("<", Var("Y"), Num(3)), Inc(FALSE, 1, Var("Y")), <<p, q>>)>>) : p \in XPool, q \in XPool}
+      \cup {Prog("FX", <<If(Var("a"), <<p, q>>, <<q>>)>>) : p \in XPool, q \in XPool}
+\* FS: csleep(n) for every n, in straight-line contexts (cycle-exact) and in a loop
+FS == {[fam |-> "FS", n |-> n, ctx |-> cx, body |-> b] : n \in 0..12, cx \in {"alone", "between", "afterload", "loop"}, b \in {<<>>}}
 \* RW: pairs of programs related by a meaning-preserving source transformation (C15)
 Pair2(rule, a, b) == [fam |-> "RW", rule |-> rule, body |-> a, body2 |-> b]
 RwLeaf == {Var("a"), Var("b"), Var("X"), Var("Y"), Idx("arr", Var("X")), Idx("arr", Num(2)), Num(1), Num(200), Var("s")}
@@ -220,7 +235,7 @@ RW == {Pair2("commute", <<S(Asg("=", d, Bin(op, l, r)))>>, <<S(Asg("=", d, Bin(o
 AllFams == FW \cup F6 \cup F1a \cup F1b \cup F1c \cup F1d \cup F1e \cup F1f \cup F1g \cup F2a \cup F2b \cup F2c \cup F2z \cup F2s
            \cup F3a \cup F3b \cup F3c \cup F4 \cup F5a \cup F5b \cup F7a \cup F7b
 Family ==
-  CASE Fam = "ALL" -> AllFams [] Fam = "RW" -> RW
+  CASE Fam = "ALL" -> AllFams [] Fam = "RW" -> RW [] Fam = "FX" -> FX \cup FS
     [] Fam = "F1a" -> F1a [] Fam = "F1b" -> F1b [] Fam = "F1c" -> F1c [] Fam = "F1d" -> F1d
     [] Fam = "F1e" -> F1e [] Fam = "F1f" -> F1f [] Fam = "F1g" -> F1g
     [] Fam = "F2a" -> F2a [] Fam = "F2b" -> F2b [] Fam = "F2c" -> F2c [] Fam = "F2z" -> F2z [] Fam = "F2s" -> F2s
